@@ -3,6 +3,7 @@
 from __future__ import annotations
 
 import asyncio
+import os
 from typing import Any
 
 from vf.common import use_repo
@@ -10,13 +11,35 @@ from vf.common import use_repo
 use_repo()
 
 _LOOP = None
+_LOOP_PID = None
 
 
 def _run(coro):
-    global _LOOP
+    """Run a coroutine on this process's event loop. A loop inherited through fork() is never reused: its default
+    executor may name worker threads that only exist in the parent, and a tool that awaits asyncio.to_thread() would
+    then wait forever."""
+    global _LOOP, _LOOP_PID
+    if _LOOP is not None and _LOOP_PID != os.getpid():
+        # never close or collect the parent's loop here: closing it would epoll_ctl(DEL) the self-pipe on the epoll
+        # instance this process shares with the parent, and the parent's loop would never wake up again
+        _ORPHANS.append(_LOOP)
+        _LOOP = None
     if _LOOP is None or _LOOP.is_closed():
         _LOOP = asyncio.new_event_loop()
+        _LOOP_PID = os.getpid()
     return _LOOP.run_until_complete(coro)
+
+
+_ORPHANS: list = []
+
+
+def close_loop():
+    """Close this process's loop (called before forking workers, so that no child inherits a live loop)."""
+    global _LOOP
+    if _LOOP is not None and _LOOP_PID == os.getpid() and not _LOOP.is_closed():
+        _LOOP.close()
+    if _LOOP is not None and _LOOP_PID == os.getpid():
+        _LOOP = None
 
 
 # One long-lived instance per tool for the whole process, as mcp/server.py:create_server() holds them: state that a tool
@@ -36,6 +59,15 @@ def _tool(name: str):
             from octave_mcp.mcp.compile_grammar import CompileGrammarTool as T
         _TOOLS[name] = T()
     return _TOOLS[name]
+
+
+def reset():
+    """Drop the loop and the tool instances (after a call was interrupted in the middle)."""
+    global _LOOP
+    if _LOOP is not None and _LOOP_PID == os.getpid():
+        _ORPHANS.append(_LOOP)
+    _LOOP = None
+    _TOOLS.clear()
 
 
 def validate(**kw) -> dict[str, Any]:
